@@ -1236,3 +1236,136 @@ Proof. intros H. destruct (lk_delegate_ok s x s' H) as (_ & H1 & H2 & _ & ->). s
 
 Lemma lk_run_safe_wfs ops s : lk_wfs s -> lk_safe s -> lk_safe (lk_run ops s) /\ lk_wfs (lk_run ops s).
 Proof. intros Hw Hs. exact (conj (lk_run_safe ops s Hw Hs) (lk_run_wfs ops s Hw)). Qed.
+
+(** * validator creation: MsgCreateValidator over the three routes *)
+
+(** on every route the code's step IS the ordinary guarded delegation of the self-bond *)
+Lemma lky_create_validator_is_delegate s r x :
+  lky_step s (LyCreateValidator r x) = lkx_step s (LxBase (LkDelegate x) 0%N).
+Proof. destruct s as [c [|] f]; reflexivity. Qed.
+
+Lemma lky_step_lower s o : lky_step s o = lkx_step s (lky_lower o).
+Proof. destruct o as [o|r x]; [reflexivity|apply lky_create_validator_is_delegate]. Qed.
+
+Lemma lky_run_lower ops : forall s, lky_run ops s = lkx_run (map lky_lower ops) s.
+Proof.
+  induction ops as [|o r IH]; intros s; [reflexivity|].
+  change (lky_run (o :: r) s) with (lky_run r (fst (lky_step s o))).
+  change (lkx_run (map lky_lower (o :: r)) s) with (lkx_run (map lky_lower r) (fst (lkx_step s (lky_lower o)))).
+  rewrite lky_step_lower. apply IH.
+Qed.
+
+(** a successful validator creation by a vesting account: the self-bond is positive and covered by
+    balance - unvested, it leaves the balance and is tracked as delegated; kind and funder are unchanged *)
+Lemma lky_create_validator_ok s r x s' : lx_vesting s = true ->
+  lky_step s (LyCreateValidator r x) = (s', LK_OK) ->
+  0 < x <= lk_bal (lx_s s) - lk_unvested (lk_a (lx_s s)) (lk_now (lx_s s)) /\
+  lk_bal (lx_s s') = lk_bal (lx_s s) - x /\ lk_deleg (lx_s s') = lk_deleg (lx_s s) + x /\
+  lk_df (lk_a (lx_s s')) = lk_df (lk_a (lx_s s)) + x /\ lk_dv (lk_a (lx_s s')) = lk_dv (lk_a (lx_s s)) /\
+  lk_unvested (lk_a (lx_s s')) (lk_now (lx_s s')) = lk_unvested (lk_a (lx_s s)) (lk_now (lx_s s)) /\
+  lx_vesting s' = true /\ lx_funder s' = lx_funder s.
+Proof.
+  destruct s as [c vk f]. cbn [lx_vesting lx_s lx_funder]. intros ->.
+  unfold lky_step, lky_step_g, lkx_create_validator, lk_cv_code. cbn [lx_vesting lx_s lx_funder].
+  destruct (lk_delegate c x) as [c' r'] eqn:E. cbn [fst snd]. intros Heq; inversion Heq; subst. cbn [lx_s lx_vesting lx_funder].
+  destruct (lk_delegate_ok c x c' E) as (_ & H1 & H2 & _ & ->). lk_open c. unfold lk_unvested, lk_vested in *. lk_proj.
+  repeat split; try reflexivity; lia.
+Qed.
+
+Lemma lky_create_validator_fail s r x s' e : lky_step s (LyCreateValidator r x) = (s', e) -> e <> LK_OK -> s' = s.
+Proof. rewrite lky_create_validator_is_delegate. apply lkx_step_g_fail. Qed.
+
+(** above balance - unvested every route refuses *)
+Lemma lky_create_validator_refused_above_vested s r x : lx_vesting s = true ->
+  lk_bal (lx_s s) - lk_unvested (lk_a (lx_s s)) (lk_now (lx_s s)) < x ->
+  snd (lky_step s (LyCreateValidator r x)) <> LK_OK.
+Proof.
+  intros Hv Hx. destruct (lky_step s (LyCreateValidator r x)) as [s' e] eqn:E. cbn [snd]. intros ->.
+  pose proof (lky_create_validator_ok s r x s' Hv E) as (H & _). lia.
+Qed.
+
+(** one step, every route: "no unvested coin is delegated" and "balance >= locked" are preserved *)
+Lemma lky_step_safe s o : lkx_wfs s -> lkx_safe s -> lkx_safe (fst (lky_step s o)) /\ lkx_wfs (fst (lky_step s o)).
+Proof. intros Hw Hs. rewrite lky_step_lower. split; [apply lkx_step_safe; assumption|apply lkx_step_wfs; assumption]. Qed.
+
+Lemma lky_create_validator_safe s r x : lkx_wfs s -> lkx_safe s ->
+  lkx_safe (fst (lky_step s (LyCreateValidator r x))) /\ lkx_wfs (fst (lky_step s (LyCreateValidator r x))).
+Proof. apply lky_step_safe. Qed.
+
+Lemma lky_create_validator_inv s r x : lkx_wfs s -> lkx_inv s -> lkx_inv (fst (lky_step s (LyCreateValidator r x))).
+Proof. intros Hw Hi. rewrite lky_create_validator_is_delegate. apply lkx_step_inv; [assumption|assumption|discriminate]. Qed.
+
+(** all histories *)
+Lemma lky_run_safe_wfs ops s : lkx_wfs s -> lkx_safe s -> lkx_safe (lky_run ops s) /\ lkx_wfs (lky_run ops s).
+Proof. rewrite lky_run_lower. apply lkx_run_safe_wfs. Qed.
+
+Lemma lky_run_inv_wfs_partial ops s : lkx_wfs s -> lkx_inv s -> lkx_tracked s ->
+  lkx_no_grant_after_slash false (map lky_lower ops) = true -> lkx_inv (lky_run ops s) /\ lkx_wfs (lky_run ops s).
+Proof. rewrite lky_run_lower. apply lkx_run_inv_wfs_partial. Qed.
+
+Definition lky_results (srv : lk_route -> lk_cv_server) (ops : list lky_op) (s : lkx_state) : list N :=
+  map (fun k => snd (lky_step_g srv (lky_run_g srv (firstn k ops) s) (nth k ops (LyOp LxConvert)))) (seq 0 (length ops)).
+
+(** the refutation: the staking precompile handing MsgCreateValidator to the Cosmos SDK's message server.
+    1000 coins, 250 vested at t = 1000, the rest later, everything locked up for 100 days; at t = 2000 the
+    account may delegate 250.  With Haqq's wrapper on every route a self-bond of 251 is refused on every route and
+    250 goes through.  With the SDK's server behind the precompile the whole grant of 1000 is bonded by the
+    account's own Ethereum transaction: balance 0 < unvested 750, and the funder's clawback fails. *)
+Definition lky_ex_start : lkx_state :=
+  lkx_fresh 1000 [(8640000, 1000)] [(1000, 250); (4000, 750)] 0 8640000 0 2000 true.
+Definition lk_cv_precompile_sdk (r : lk_route) : lk_cv_server :=
+  match r with LkRoutePrecompile => LkCvSdk | _ => LkCvHaqq end.
+
+Example lky_sdk_server_refuted :
+  lkx_wfs lky_ex_start /\ lkx_inv lky_ex_start /\ lkx_safe lky_ex_start /\ lkx_tracked lky_ex_start /\
+  lk_unvested (lk_a (lx_s lky_ex_start)) 2000 = 750 /\
+  (* the code *)
+  lky_results lk_cv_code [LyCreateValidator LkRouteMsg 251; LyCreateValidator LkRouteAuthz 251; LyCreateValidator LkRoutePrecompile 251;
+                          LyCreateValidator LkRoutePrecompile 1000; LyCreateValidator LkRoutePrecompile 250] lky_ex_start
+    = [LK_UNVESTED; LK_UNVESTED; LK_UNVESTED; LK_UNVESTED; LK_OK] /\
+  (* the SDK's message server behind the precompile *)
+  (let r := lky_step_g lk_cv_precompile_sdk lky_ex_start (LyCreateValidator LkRoutePrecompile 1000) in
+   snd r = LK_OK /\ lk_bal (lx_s (fst r)) = 0 /\ lk_deleg (lx_s (fst r)) = 1000 /\ lk_df (lk_a (lx_s (fst r))) = 1000 /\
+   lk_unvested (lk_a (lx_s (fst r))) 2000 = 750 /\ ~ lkx_safe (fst r) /\ ~ lkx_inv (fst r) /\
+   snd (lk_clawback (lx_s (fst r)) [(8640000, 250)] 8640000) = LK_INSUFFICIENT) /\
+  (* the other two routes of that variant still refuse *)
+  lky_results lk_cv_precompile_sdk [LyCreateValidator LkRouteMsg 251; LyCreateValidator LkRouteAuthz 251] lky_ex_start
+    = [LK_UNVESTED; LK_UNVESTED].
+Proof.
+  destruct (lkx_fresh_ok 1000 [(8640000, 1000)] [(1000, 250); (4000, 750)] 0 8640000 0 2000 true eq_refl ltac:(lia)) as (H1 & H2 & H3 & H4).
+  split; [exact H1|]. split; [exact H2|]. split; [exact H3|]. split; [exact H4|].
+  split; [vm_compute; reflexivity|]. split; [vm_compute; reflexivity|].
+  split; [|vm_compute; reflexivity].
+  cbv zeta. split; [vm_compute; reflexivity|]. split; [vm_compute; reflexivity|]. split; [vm_compute; reflexivity|].
+  split; [vm_compute; reflexivity|]. split; [vm_compute; reflexivity|].
+  split; [unfold lkx_safe, lk_safe; vm_compute; intros H; apply H; reflexivity|].
+  split; [unfold lkx_inv, lk_inv; vm_compute; intros H; apply H; reflexivity|].
+  vm_compute; reflexivity.
+Qed.
+
+(** non-vacuity: the same account delegates 100, spends nothing, is refused a self-bond of 151 on each route
+    (150 = balance 900 - unvested 750), creates its validator with 150 through the precompile, is refused
+    any further delegation, and after the second vesting event bonds more; the funder's clawback before that
+    takes nothing that is bonded *)
+Definition lky_ex_history : list lky_op :=
+  [LyOp (LxBase (LkDelegate 100) 0%N);
+   LyCreateValidator LkRouteMsg 151; LyCreateValidator LkRouteAuthz 151; LyCreateValidator LkRoutePrecompile 151;
+   LyCreateValidator LkRoutePrecompile 150;
+   LyOp (LxBase (LkDelegate 1) 0%N);
+   LyOp (LxBase (LkAdvance 3000) 0%N);
+   LyCreateValidator LkRouteAuthz 751; LyCreateValidator LkRouteMsg 750].
+
+Example lky_ex_runs :
+  lky_results lk_cv_code lky_ex_history lky_ex_start
+    = [LK_OK; LK_UNVESTED; LK_UNVESTED; LK_UNVESTED; LK_OK; LK_UNVESTED; LK_OK; LK_UNVESTED; LK_OK] /\
+  lkx_no_grant_after_slash false (map lky_lower lky_ex_history) = true /\
+  lkx_safe (lky_run lky_ex_history lky_ex_start) /\ lkx_inv (lky_run lky_ex_history lky_ex_start) /\
+  lk_bal (lx_s (lky_run lky_ex_history lky_ex_start)) = 0 /\ lk_deleg (lx_s (lky_run lky_ex_history lky_ex_start)) = 1000 /\
+  lk_unvested (lk_a (lx_s (lky_run lky_ex_history lky_ex_start))) 5000 = 0.
+Proof.
+  destruct (lkx_fresh_ok 1000 [(8640000, 1000)] [(1000, 250); (4000, 750)] 0 8640000 0 2000 true eq_refl ltac:(lia)) as (H1 & H2 & H3 & H4).
+  split; [vm_compute; reflexivity|]. split; [reflexivity|].
+  split; [exact (proj1 (lky_run_safe_wfs lky_ex_history lky_ex_start H1 H3))|].
+  split; [exact (proj1 (lky_run_inv_wfs_partial lky_ex_history lky_ex_start H1 H2 H4 eq_refl))|].
+  split; [vm_compute; reflexivity|]. split; vm_compute; reflexivity.
+Qed.
